@@ -257,6 +257,10 @@ fn command_go(
                 depth,
             );
 
+            // Only announce the move once the next command can be accepted
+            search_is_running.store(false, Relaxed);
+            *current_game = None;
+
             if let Some(best_move) = best_move {
                 println!("bestmove {}", best_move.uci_notation());
             } else {
@@ -264,9 +268,6 @@ fn command_go(
             }
             #[cfg(daniel729_chess_verif)]
             crate::verif_hooks::schedule_point("after_bestmove");
-
-            search_is_running.store(false, Relaxed);
-            *current_game = None;
         }
     });
 
